@@ -9,6 +9,7 @@ require (
 	github.com/klauspost/pgzip v1.2.6
 	github.com/sirupsen/logrus v1.9.3
 	github.com/ulikunitz/xz v0.5.11
+	gopkg.in/yaml.v3 v3.0.1
 )
 
 require (
